@@ -262,6 +262,22 @@ func fill(t reflect.Type, depth int) reflect.Value {
 		if ragged > 0 {
 			// nested slices (rows of rows) get rows of different lengths: 1, 3 (ragged = 1) or 3, 1 (ragged = 2)
 			if t.Elem().Kind() == reflect.Slice {
+				if ragged >= 3 {
+					// rows with an empty row first (ragged = 3: 0, 2, 1) or in the middle (ragged = 4: 2, 0, 3)
+					lens := []int{0, 2, 1}
+					if ragged == 4 {
+						lens = []int{2, 0, 3}
+					}
+					s := reflect.MakeSlice(t, len(lens), len(lens))
+					for i, want := range lens {
+						row := reflect.MakeSlice(t.Elem(), want, want)
+						for k := 0; k < want; k++ {
+							row.Index(k).Set(fill(t.Elem().Elem(), depth))
+						}
+						s.Index(i).Set(row)
+					}
+					return s
+				}
 				s := reflect.MakeSlice(t, 2, 2)
 				for i := 0; i < 2; i++ {
 					want := 1
@@ -345,7 +361,7 @@ func Check() *common.Check {
 		// every case is recorded before it runs: a fatal error or a hang of the worker is attributed to it
 		CrashSafe: true,
 		Rule: "(S) every struct type of pkg/sql/ast with a Children method (listed from the current source by tools/astreg) x every exported field that can hold a node, " +
-			"populated alone with uniquely tagged content to depth 2, slices with 2 and 3 elements and rows of nested slices with lengths (2,2), (1,3), (3,1); (S2) every interface-typed node position (field or slice element) x every concrete node type assignable to it; (S4) every field of a named integer type (a discriminator) x values 1..15 x every node-holding field populated alone; (T) every tree of the sqlgen statement space (quick: without 3/4-operator shapes) " +
+			"populated alone with uniquely tagged content to depth 2, slices with 2 and 3 elements and rows of nested slices with lengths (2,2), (1,3), (3,1), (0,2,1), (2,0,3); (S2) every interface-typed node position (field or slice element) x every concrete node type assignable to it; (S4) every field of a named integer type (a discriminator) x values 1..15 x every node-holding field populated alone; (T) every tree of the sqlgen statement space (quick: without 3/4-operator shapes) " +
 			"every .sql file under /repo/testdata the parser accepts, (H) every ordered pair of representative expression statements as parse / release / parse in one process (the second tree is built from recycled nodes), and left-deep operator / UNION chains of every length 2..40, around 64..1024 and a ladder up to 1200 operands. Oracle on each root: multiset of nodes seen by ast.Inspect == multiset of node-typed values reachable by reflection. " +
 			"distinct = distinct (type,field) obligations and distinct SQL texts; non-trivial = the root has at least 3 reachable nodes",
 		Assume: []string{"a node is identified by its type and canonical dump (Children() hands out copies of value-typed elements)",
@@ -360,10 +376,13 @@ func Check() *common.Check {
 					if f.PkgPath != "" || !canHoldNode(f.Type, 0) {
 						continue
 					}
-					for rg := 0; rg <= 2; rg++ {
+					for rg := 0; rg <= 4; rg++ {
 						rg := rg
 						if rg > 0 && f.Type.Kind() != reflect.Slice {
 							continue
+						}
+						if rg >= 3 && !(f.Type.Kind() == reflect.Slice && f.Type.Elem().Kind() == reflect.Slice) {
+							continue // the shapes with an empty row exist for rows of rows only
 						}
 						rkey := fmt.Sprintf("S/%s.%s/shape%d", st.Name(), f.Name, rg)
 						e.Do(rkey, func(c *common.Ctx) {
